@@ -14,8 +14,11 @@ func (p *Pool) Run(ctx context.Context) {
 		return
 	}
 
+	p.sendM.Lock()
 	p.ctx, p.cancel = context.WithCancel(ctx)
 	p.ch = make(chan Event, p.opts.NumWorkers*2) //nolint:mnd
+	p.sendM.Unlock()
+
 	for range p.opts.NumWorkers {
 		p.runWg.Add(1)
 		go p.run() //nolint:contextcheck
